@@ -3,6 +3,7 @@ C06 — only valid chain extensions are accepted; a rejected block changes nothi
 Property theorems over the model `NeoModel.Model.AddBlock` (helper lemmas: Proofs/AddBlock*.lean).
 -/
 import NeoModel.Proofs.AddBlockHist
+import NeoModel.Proofs.AddBlockMerkle
 namespace NeoModel.AddBlock
 variable {L : Type}
 
@@ -86,8 +87,10 @@ block 1 does not produce (46): storeBlock executes block 1 and then fails -/
 def h2bad : Header := { index := 2, hash := 12, prevHash := 11, merkleRoot := 0, ts := 7, nextConsensus := 7, sre := true, prevStateRoot := 99, wit := 19 }
 def exBadNext : Node (Nat × Nat) := { exNode with headers := [g0, h1, h2bad] }
 
-/-- negation witness of the full statement (finding failed-store-corrupts-trie): the block is
-rejected, yet the node's ledger is not the one it had. -/
+/-- negation witness of the full statement (findings failed-store-corrupts-trie and
+failed-store-corrupts-transfer-log: the in-memory trie resp. the entry counter of a stored token transfer
+log are modified in place by the execution that precedes the failing check): the block is rejected, yet
+the node's ledger is not the one it had. -/
 theorem reject_changes_ledger_after_failed_store :
     (addBlock exEnv exBadNext b1).2 = some .store ∧
       (addBlock exEnv exBadNext b1).1.ledger ≠ exBadNext.ledger := by decide
@@ -166,11 +169,11 @@ example : Inv exEnv exNode ∧ (addBlock exEnv exNode b1).2 = none :=
 /-- the mempool-soundness hypothesis `hpool` of `accept_only_valid` is needed: a transaction that is
 pooled (same hash, same witness) is not verified again, so if it lost its validity while pooled and the
 mempool kept it, the block carrying it is accepted. The real mempool re-checks, after every block,
-expiry, on-chain conflicts, policy (blocked signers), the size and attribute fees and the balance
-(IsTxStillRelevant / RemoveStale; blocked signers and attribute fees since 397b691); what it does not
-re-check is the witness verification cost of standard witnesses: after a small FeePerByte raise a
-transaction whose fee no longer covers verification stays pooled (known finding
-stale-pooled-tx-accepted:feeperbyte-raised-a-little). -/
+expiry and the ValidUntilBlock window, on-chain conflicts, policy (blocked signers), the size and
+attribute fees, the verification cost of standard witnesses and the balance (IsTxStillRelevant /
+RemoveStale; blocked signers and attribute fees since 397b691, the window since 0375dbe, the witness
+cost since 4f45775 — this check had found a pooled transaction surviving a small FeePerByte raise;
+its replay stays in the corpus). That the mempool is sound is C07's subject; here it is a hypothesis. -/
 def tStale : Tx := { id := 60, wit := 61, sender := 1, fee := 5, netFee := 2, conflicts := [] }
 def exStalePool : Node (Nat × Nat) := { exNode with pool := [tStale] }
 def bStale : Block := { hdr := { h1 with hash := 13, merkleRoot := 60, wit := 20 }, txs := [tStale] }
@@ -307,26 +310,34 @@ example : (addBlock exEnv exPooled b1).2 = none ∧ (addBlock exEnv exPooled b1)
 
 /-! ### why the duplicate check is needed: the Merkle root does not exclude a repeated last transaction -/
 
-/-- repeating the last element of an odd level does not change the next level, for any hash `h2` -/
-theorem merkleLevel_dup_last (h2 : Nat → Nat → Nat) (pre : List Nat) (x : Nat) (n : Nat)
-    (hn : pre.length = 2 * n) :
-    merkleLevel h2 (pre ++ [x, x]) = merkleLevel h2 (pre ++ [x]) := by
-  induction n generalizing pre with
-  | zero =>
-    have : pre = [] := List.eq_nil_of_length_eq_zero (by omega)
-    subst this; rfl
-  | succ n ih =>
-    match pre, hn with
-    | a :: b :: rest, hn =>
-      simp only [List.cons_append, merkleLevel]
-      rw [ih rest (by simp at hn; omega)]
+/-- C06, the duplicated-last-leaf forgery family at any length: for every list with an odd number
+(≥ 3) of leaves, appending a copy of the last leaf gives the same Merkle root — for every two-to-one
+hash on every carrier, in particular for double SHA-256 on 32-byte strings (the driver computes exactly
+this function with the real hash and is compared with the node on every generated block). So the root
+check alone never makes the transaction list unique; the duplicate check (ab64b57) is what excludes this
+family (`duplicate_tx_rejected`). -/
+theorem merkle_dup_last_any {α : Type} (h2 : α → α → α) (z : α) (pre : List α) (x : α) (n : Nat)
+    (hn : pre.length = 2 * (n + 1)) :
+    merkleRoot h2 z (pre ++ [x, x]) = merkleRoot h2 z (pre ++ [x]) :=
+  merkle_dup_last h2 z pre x n hn
+
+-- non-vacuity: 7 -> 8 leaves over strings with concatenation as the "hash"
+example : merkleRoot (fun a b : String => "(" ++ a ++ b ++ ")") "" ["a", "b", "c", "d", "e", "f", "g", "g"] =
+    merkleRoot (fun a b : String => "(" ++ a ++ b ++ ")") "" ["a", "b", "c", "d", "e", "f", "g"] := by decide
+
+/-- further members of the family: when a level above the leaves has an odd number of nodes the last
+subtree can be repeated: 5 leaves -> 7 or 8, 6 leaves -> 8. -/
+theorem merkle_dup_subtree {α : Type} (h2 : α → α → α) (z a b c d e f : α) :
+    merkleRoot h2 z [a, b, c, d, e, e, e] = merkleRoot h2 z [a, b, c, d, e] ∧
+    merkleRoot h2 z [a, b, c, d, e, e, e, e] = merkleRoot h2 z [a, b, c, d, e] ∧
+    merkleRoot h2 z [a, b, c, d, e, f, e, f] = merkleRoot h2 z [a, b, c, d, e, f] := ⟨rfl, rfl, rfl⟩
 
 /-- the block [a,b,c,c] has the Merkle root of [a,b,c] (and so the same header hash and a valid
 signature): the root check alone does not make the transaction list unique. -/
-theorem merkle_dup_last3 (h2 : Nat → Nat → Nat) (a b c : Nat) :
-    merkleRoot h2 [a, b, c, c] = merkleRoot h2 [a, b, c] := rfl
+theorem merkle_dup_last3 {α : Type} (h2 : α → α → α) (z a b c : α) :
+    merkleRoot h2 z [a, b, c, c] = merkleRoot h2 z [a, b, c] := rfl
 
-theorem merkle_dup_last5 (h2 : Nat → Nat → Nat) (a b c d e : Nat) :
-    merkleRoot h2 [a, b, c, d, e, e] = merkleRoot h2 [a, b, c, d, e] := rfl
+theorem merkle_dup_last5 {α : Type} (h2 : α → α → α) (z a b c d e : α) :
+    merkleRoot h2 z [a, b, c, d, e, e] = merkleRoot h2 z [a, b, c, d, e] := rfl
 
 end NeoModel.AddBlock
